@@ -154,7 +154,7 @@ fn case_typed<S: Spec>(sub: &str, id: u64, r: &mut Report) {
         }
         // source RNG delivering k all-zero blocks, then data (or zeros forever)
         "from_rng" => {
-            let k = if p.chance(1, 2) { p.below(5) as usize } else { *p.pick(&ZERO_BLOCK_COUNTS) };
+            let k = if p.chance(1, 2) { p.below(5) as usize } else { *p.pick(zero_block_counts()) };
             // (only XorShiftRng redraws; the others read one block, so huge runs add nothing)
             let k = if is_xorshift { k } else { k.min(1001) };
             let all_zero_source = !is_xorshift && p.chance(1, 5);
